@@ -43,7 +43,7 @@ def random_params(rng, atoms, vary=True):
     if rng.random() < 0.5:
         p["bond_threshold"] = float(rng.uniform(0.4, 1.0))
     if rng.random() < 0.4:
-        p["pos_tol"] = float(rng.uniform(0.3, 1.0))
+        p["pos_tol"] = float(rng.uniform(0.1, 1.0))
     if rng.random() < 0.4:
         p["max_cell_size"] = float(rng.uniform(4.0, 8.0))
     r = rng.random()
@@ -51,6 +51,8 @@ def random_params(rng, atoms, vary=True):
         p["merge_threshold"] = float(rng.uniform(0.3, 0.9))
     elif r < 0.5:
         p["merge_threshold"] = float(rng.uniform(0.0, 0.25))      # merge-prone: small overlaps already merge regions
+    elif r < 0.6:
+        p["merge_threshold"] = 1.0                                 # never merge: overlaps must be resolved by localization
     r = rng.random()
     z = atoms.get_atomic_numbers()
     from ase.data.vdw_alvarez import vdw_radii
